@@ -106,6 +106,17 @@ if __name__ == "__main__":
         print(json.dumps(validate(sys.argv[2]), indent=1))
     elif cmd == "run":
         print(json.dumps(run(sys.argv[2], *(sys.argv[3:5])), indent=1))
+    elif cmd == "table":
+        rows = []
+        for d in sorted((ROOT / "seeded").iterdir()):
+            if not (d / "meta.json").exists():
+                continue
+            m = json.loads((d / "meta.json").read_text())
+            r = json.loads((d / "result.json").read_text()) if (d / "result.json").exists() else {}
+            tier = "quick" if (r.get("quick") or {}).get("exit") == 1 else "thorough" if (r.get("thorough") or {}).get("exit") == 1 else "-"
+            rows.append(f"| {d.name} | {m.get('property')} | {str(m.get('summary', ''))[:160].replace('|', '/')} | "
+                        f"{str(m.get('needs', ''))[:160].replace('|', '/')} | {'yes (' + tier + ')' if r.get('detected') else 'NO'} |")
+        print("| seed | property | change | needs | caught |\n|---|---|---|---|---|\n" + "\n".join(rows))
     elif cmd == "record":
         # validate + run (quick; thorough too when quick misses) and store the outcome next to the seed
         seed = Path(sys.argv[2]).resolve()
